@@ -207,7 +207,8 @@ func applyDefect(t *rapid.T, g gpat, defect string) string {
 	case "zero-port":
 		return hostPort(g.host, "0")
 	case "overrange-port":
-		return hostPort(g.host, pick(t, "op", []string{"65536", "70000", "99999"}))
+		// just above the range, and far above it in ways that wrap back into the range in 16, 32, 63 or 64 bits
+		return hostPort(g.host, pick(t, "op", []string{"65536", "70000", "99999", "72817", "65537", "131071", "4294967297", "4294975376", "9223372036854775809", "18446744073709551617", "18446744073709559696", "36893488147419103233", "340282366920938463463374607431768211457"}))
 	case "overlong-port":
 		return hostPort(g.host, pick(t, "lp", []string{"100000", "123456", "0065535"}))
 	case "leading-zero-port":
